@@ -13,7 +13,12 @@ Local Open Scope Z_scope.
    SearchResult.Total *)
 Definition obs := (list Z * Z)%type.
 
-(* [tr]: the engine's fuzzy metric (true = scorch, transpositions; false = upsidedown).
+(* the fuzzy metric of each engine (Extracted/Obligations_C02.v ties [scorch_metric] to the flag
+   scorch passes to its Levenshtein automaton builders) *)
+Definition scorch_metric : bool := true.
+Definition upsidedown_metric : bool := false.
+
+(* [tr]: the engine's fuzzy metric ([scorch_metric] or [upsidedown_metric]).
    [c]: the live documents with their tokens, ascending document numbers.
    [o]: the observations for (score, IncludeLocations, Explain) =
         (default,f,f) (default,f,t) (default,t,f) (default,t,t) (none,f,f) (none,f,t) (none,t,f) (none,t,t). *)
